@@ -153,6 +153,11 @@ QStringList QXmppVCardManager::discoveryFeatures() const
 bool QXmppVCardManager::handleStanza(const QDomElement &element)
 {
     if (element.tagName() == u"iq" && QXmppVCardIq::isVCard(element)) {
+        // only responses are handled here; requests get the default error reply
+        if (const auto type = element.attribute(u"type"_s); type == u"get" || type == u"set") {
+            return false;
+        }
+
         QXmppVCardIq vCardIq;
         vCardIq.parse(element);
 
